@@ -118,6 +118,7 @@ def gen_plan(wl, fr, idx):
     clean = wl.random() < 0.4
     interrupts = (not clean) and wl.random() < 0.5
     plan = {'kind': kind, 'clean': clean, 'faults': {'interrupts': interrupts},
+            'reuse_buffers': wl.random() < 0.5,
             'read_all_columns': wl.random() < 0.6,
             'granularity': 'line' if interrupts and wl.random() < 0.5 else 'seam'}
     ctor = _gen_ctor(wl)
@@ -174,7 +175,14 @@ def gen_plan(wl, fr, idx):
             ops.append(op)
             _shadow_apply(cur, op)
             ops.append({'op': 'fit', 'sig': 0})
-        elif scen < 0.63 and cur['burst_method'] == 'cycles':
+        elif scen < 0.60:
+            # fit -> the caller rewrites the same array object in place -> fit again (same settings)
+            plan['reuse_buffers'] = True
+            ops.append({'op': 'fit', 'sig': 0})
+            ops.append({'op': 'sig_inplace', 'sig': 0, 'how': wl.choice(('scale', 'negate', 'refill')),
+                        'other': wl.randrange(nsig)})
+            ops.append({'op': 'fit', 'sig': 0})
+        elif scen < 0.68 and cur['burst_method'] == 'cycles':
             # fit -> recompute(r) -> threshold edit -> [fit] -> recompute(same r)
             rr = wl.choice((None, 0.05, 0.1, 0.2))
             ops.append({'op': 'fit', 'sig': 0})
@@ -212,8 +220,14 @@ def gen_plan(wl, fr, idx):
                      'amp_consistency', 'burst_fraction', 'no_such_column', 'band_amp'))})
             elif r < 0.89:
                 ops.append({'op': 'load', 'sig': wl.randrange(nsig), 'settings': _gen_ctor(wl)})
-            elif r < 0.93:
+            elif r < 0.915:
                 ops.append({'op': 'roundtrip', 'how': wl.choice(('pickle', 'deepcopy', 'copy'))})
+            elif r < 0.93:
+                # the caller rewrites one of its signal buffers in place (only matters with reuse_buffers)
+                k = wl.randrange(nsig)
+                ops.append({'op': 'sig_inplace', 'sig': k, 'how': wl.choice(('scale', 'negate', 'refill')),
+                            'other': wl.randrange(nsig)})
+                ops.append({'op': 'fit', 'sig': k})
             elif r < 0.95:
                 ops.append({'op': 'other_object', 'ctor': _gen_ctor(wl), 'sig': wl.randrange(nsig)})
             elif r < 0.98 and not clean:
@@ -259,8 +273,10 @@ def gen_plan(wl, fr, idx):
                 op = _gen_edit(wl, cur, True)
                 ops.append(op)
                 _shadow_apply(cur, op)
-            elif r < 0.88:
+            elif r < 0.86:
                 ops.append({'op': 'grecompute', 'r': wl.choice((None, 0.1, 0.2))})
+            elif r < 0.94:
+                ops.append({'op': 'groundtrip', 'how': wl.choice(('pickle', 'deepcopy', 'copy'))})
             else:
                 ops.append({'op': 'glen'})
     plan['ops'] = ops
@@ -425,10 +441,18 @@ def first_diff_column(a, b):
 # ---------------------------------------------------------------------------------------
 # execution
 
+_BUFFERS = {}        # signal index -> the caller's array object (per run; runs are separate processes)
+
+
 def fit_args(plan, op):
     d = plan['signals'][op['sig']]
     band = d['band']
-    sig = build_signal(d['spec'], band)
+    if plan.get('reuse_buffers') and not op.get('bad'):
+        if op['sig'] not in _BUFFERS:
+            _BUFFERS[op['sig']] = build_signal(d['spec'], band)
+        sig = _BUFFERS[op['sig']]             # the very same ndarray object every time
+    else:
+        sig = build_signal(d['spec'], band)
     fs, f_range = band['fs'], tuple(band['f_range'])
     if d.get('f_range_list'):
         f_range = list(f_range)
@@ -543,6 +567,8 @@ def _run_single(plan, tape, res, hist, ctl, interrupts):
                 _op_getattr(op, n, obj, model, res, hist)
             elif kind == 'roundtrip':
                 obj = _roundtrip(obj, op['how'], n, res, hist)
+            elif kind == 'sig_inplace':
+                _op_sig_inplace(plan, op, hist, res)
             elif kind == 'other_object':
                 _op_other_object(plan, op, n, res, hist)
             # invariant: attribute access returns the table's columns - read every column after
@@ -690,6 +716,28 @@ def _roundtrip(obj, how, n, res, hist):
     return new
 
 
+def _op_sig_inplace(plan, op, hist, res):
+    """The caller overwrites the contents of one of its signal buffers (same object, new values)."""
+    if not plan.get('reuse_buffers'):
+        hist.append(('sig_inplace', 'no-buffer'))
+        return
+    k = op['sig']
+    d = plan['signals'][k]
+    if k not in _BUFFERS:
+        _BUFFERS[k] = build_signal(d['spec'], d['band'])
+    buf = _BUFFERS[k]
+    if op['how'] == 'scale':
+        buf *= 3.0
+    elif op['how'] == 'negate':
+        np.negative(buf, out=buf)
+    else:
+        o = plan['signals'][op['other']]
+        src = build_signal(o['spec'], d['band'])       # another waveform, same length and band
+        buf[:] = src[:len(buf)] * 0.5 + buf[::-1] * 0.5
+    hist.append(('sig_inplace', op['how']))
+    res.stats['probe.signal_buffer_rewritten_in_place'] += 1
+
+
 def _op_other_object(plan, op, n, res, hist):
     """An independent second object is constructed and fitted in between: objects must not share state."""
     from bycycle.objs import Bycycle
@@ -785,6 +833,15 @@ def _run_group(plan, tape, res, hist, ctl, sim):
             # whether the already-built models see a later edit of the group's settings is not
             # specified: group recompute_edges is only checked when no edit intervened
             edited_since_fit = True
+        elif kind == 'groundtrip':
+            new = _roundtrip(obj, op['how'], n, res, hist)
+            if new is not obj and cur is not None and not edited_since_fit:
+                bad = _group_columns(new, cur[1], cur[0].ndim == 3)
+                if bad:
+                    res.violate('models-mismatch', 'roundtrip',
+                                'op %d (%s of the group): %s' % (n, op['how'], bad))
+                    break
+            obj = new
         elif kind == 'glen':
             exp = 0 if cur is None else len(cur[1])
             try:
